@@ -60,6 +60,15 @@ fn show(p: &P) -> String {
             Ok(inner) => format!("OK Heap{}", &show(&inner)[3..]),
             Err(_) => "OK Other heap-error".to_string(),
         },
+        P::Vector(v) => {
+            // "OK Vector <Kind>:<bits>,<Kind>:<bits>,..." (empty vector: "OK Vector")
+            let items: Vec<String> = v.0.borrow().iter().map(|p| {
+                let s = show(p);
+                let t: Vec<&str> = s.split_whitespace().collect();
+                format!("{}:{}", t[1], t.get(2).copied().unwrap_or(""))
+            }).collect();
+            format!("OK Vector {}", items.join(","))
+        }
         P::Optional(None) => "OK Nil 0".to_string(),
         P::Optional(Some(b)) => format!("OK Some{}", &show(b)[3..]),
         other => format!("OK Other {:?}", other.ty()),
@@ -74,6 +83,10 @@ fn res(r: anyhow::Result<P>) -> String {
 }
 
 fn eval(op: &str, args: &[P]) -> String {
+    if op.starts_with("L:") {
+        // list kernels: the operand list may be empty (empty receiver, no argument)
+        return verif_native_ext::eval_ext(op, args);
+    }
     let a = &args[0];
     match op {
         "add" => res(a + &args[1]),
